@@ -259,9 +259,9 @@ theorem C14_setup_refused (s' : State) (R : List Prod)
 products asked, `q`, the answers running out, a refusal by `undeclare`): the state is the one before minus the
 declarations, tags and directories of the products reported as removed, these are among the products the command
 collected, in that order, and every other declaration, tag and directory is untouched. -/
-theorem C14_interactive_exact (force : Bool) : ∀ (ps : List Prod) (s : State) (d : Dflt) (answers : List Ans),
-    (destroyLoopI force s ps d answers).2.1 = destroy s (destroyLoopI force s ps d answers).2.2 ∧
-      (destroyLoopI force s ps d answers).2.2.Sublist ps := by
+theorem C14_interactive_exact (force : Bool) (top : Prod) : ∀ (ps : List Prod) (s : State) (d : Dflt) (answers : List Ans),
+    (destroyLoopI force top s ps d answers).2.1 = destroy s (destroyLoopI force top s ps d answers).2.2 ∧
+      (destroyLoopI force top s ps d answers).2.2.Sublist ps := by
   intro ps
   induction ps with
   | nil => intro s d answers; simp [destroyLoopI, destroy_nil]
@@ -272,8 +272,10 @@ theorem C14_interactive_exact (force : Bool) : ∀ (ps : List Prod) (s : State) 
     · simp [destroy_nil]
     · simp [destroy_nil]
     · rename_i d' as' _
-      obtain ⟨h1, h2⟩ := ih s d' as'
-      exact ⟨h1, List.Sublist.cons _ h2⟩
+      split
+      · simp [destroy_nil]
+      · obtain ⟨h1, h2⟩ := ih s d' as'
+        exact ⟨h1, List.Sublist.cons _ h2⟩
     · rename_i d' as' _
       split
       · simp [destroy_nil]
@@ -281,12 +283,52 @@ theorem C14_interactive_exact (force : Bool) : ∀ (ps : List Prod) (s : State) 
         · simp [destroy_nil]
         · obtain ⟨h1, h2⟩ := ih (destroy s [p]) d' as'
           simp only
-          refine ⟨?_, List.Sublist.cons₂ _ h2⟩
+          refine ⟨?_, List.Sublist.cons_cons _ h2⟩
           rw [h1, destroy_destroy]
 
+/-- **With `-i` too, every user of a removed product is the requested product** (check on, force off): the in-use
+check precedes the prompts.  Whether the requested product itself goes is then up to the answers — see the witness. -/
+theorem C14_interactive_users_only_requested (sb : SetupBy) (answers : List Ans) :
+    ∀ p ∈ (removeWithI s (.ok sb) name ver recursive true false dn answers).2.2,
+      ∀ u ∈ users sb p.name p.ver, u.name = name ∧ u.ver = ver := by
+  unfold removeWithI
+  simp only [if_true]
+  cases hl : collect s.db (some sb) false dn (name, ver) s.removeFuel name (some ver) recursive [] with
+  | error e => simp
+  | ok r =>
+    obtain ⟨l, sn⟩ := r
+    simp only
+    split
+    · simp
+    · intro p hp u hu
+      have hsub := (C14_interactive_exact false ⟨name, some ver, true⟩ (uniqProds l) s .y answers).2
+      have hp' : p ∈ l := (mem_uniqProds l p).mp (hsub.subset hp)
+      have := collect_checked _ _ _ _ _ _ _ _ _ _ _ hl p hp'
+      simp only [inUse, usedBy, Bool.not_eq_false', List.isEmpty_iff, List.filter_eq_nil_iff] at this
+      have := this u hu
+      simpa using this
+
+/-- **Negation witness for the pinned tree (D74): with `-i` something still needed could be removed.**  `app 1` requires
+`lib 1`; `eups remove -i -R app 1` with the in-use check on asks about `app 1` first and then about `lib 1` (which passed
+the check: its only user is the requested product); answered `n`, `y`, the pinned command succeeded, `lib 1` was gone and
+`app 1`, which requires it, still declared.  The repaired command stops at the `n` for the requested product. -/
+theorem C14_interactive_still_needed_witness :
+    ∃ (s0 : State) (answers : List Ans) (s' : State) (R : List Prod),
+      removeWithIPinned s0 (usesInfo s0.db s0.db.fuel) (Str.ofString "app") (Str.ofString "1") true true false none answers
+        = (.ok, s', R) ∧
+      R = [⟨Str.ofString "lib", some (Str.ofString "1"), true⟩] ∧
+      s'.decls.map (fun d => (d.name, d.deps.map (·.name))) = [(Str.ofString "app", [Str.ofString "lib"])] ∧
+      removeWithI s0 (usesInfo s0.db s0.db.fuel) (Str.ofString "app") (Str.ofString "1") true true false none answers
+        = (.ok, s0, []) :=
+  ⟨{ decls := [⟨Str.ofString "lib", Str.ofString "1", [], false⟩,
+               ⟨Str.ofString "app", Str.ofString "1", [⟨false, false, Str.ofString "lib", none, false, false⟩], false⟩],
+     tags := [(Str.ofString "lib", currentTag, Str.ofString "1"), (Str.ofString "app", currentTag, Str.ofString "1")],
+     dirs := [(Str.ofString "lib", Str.ofString "1"), (Str.ofString "app", Str.ofString "1")] },
+   [.n, .y], _, _, rfl, by decide, by decide, by decide⟩
+
 /-- a product answered `n` stays: answering `n` to everything removes nothing -/
-theorem C14_interactive_all_no (force : Bool) : ∀ (ps : List Prod) (s : State) (d : Dflt) (answers : List Ans),
-    d ≠ .bang → answers = List.replicate ps.length Ans.n → destroyLoopI force s ps d answers = (.ok, s, []) := by
+theorem C14_interactive_all_no (force : Bool) (top : Prod) : ∀ (ps : List Prod) (s : State) (d : Dflt) (answers : List Ans),
+    d ≠ .bang → answers = List.replicate ps.length Ans.n → destroyLoopI force top s ps d answers = (.ok, s, []) := by
   intro ps
   induction ps with
   | nil => intro s d answers _ _; simp [destroyLoopI]
@@ -295,13 +337,21 @@ theorem C14_interactive_all_no (force : Bool) : ∀ (ps : List Prod) (s : State)
     subst ha
     cases d with
     | bang => exact absurd rfl hd
-    | y => simp only [List.length_cons, List.replicate_succ, destroyLoopI, ask]; exact ih s .n _ (by simp) rfl
-    | n => simp only [List.length_cons, List.replicate_succ, destroyLoopI, ask]; exact ih s .n _ (by simp) rfl
+    | y =>
+      simp only [List.length_cons, List.replicate_succ, destroyLoopI, ask]
+      split
+      · rfl
+      · exact ih s .n _ (by simp) rfl
+    | n =>
+      simp only [List.length_cons, List.replicate_succ, destroyLoopI, ask]
+      split
+      · rfl
+      · exact ih s .n _ (by simp) rfl
 
 /-- `!` (yes to all) makes the rest of the loop the loop without `-i` -/
-theorem C14_interactive_bang (force : Bool) : ∀ (ps : List Prod) (s : State) (answers : List Ans),
-    (destroyLoopI force s ps .bang answers).1 = (destroyLoop force s ps).1 ∧
-      (destroyLoopI force s ps .bang answers).2.1 = (destroyLoop force s ps).2 := by
+theorem C14_interactive_bang (force : Bool) (top : Prod) : ∀ (ps : List Prod) (s : State) (answers : List Ans),
+    (destroyLoopI force top s ps .bang answers).1 = (destroyLoop force s ps).1 ∧
+      (destroyLoopI force top s ps .bang answers).2.1 = (destroyLoop force s ps).2 := by
   intro ps
   induction ps with
   | nil => intro s answers; simp [destroyLoopI, destroyLoop]
